@@ -537,12 +537,49 @@ def validate(n=20000, seed=0):
         if k == 'bad':
             diffs.append((t, out, v))
     print('spec validation against CPython email.utils.parsedate_to_datetime: %d strings, verdicts %r' % (len(kept), stats))
+    import re as _re
+    def features(t, v):
+        fs = []
+        if _re.search(r'\d\s+:|:\s+\d', t):
+            fs.append('white space around a time colon')
+        m = _re.search(r'[A-Za-z]{3}\s+(\d+)\s+\d\d\s*:', t)
+        if m:
+            n = len(m.group(1))
+            fs.append('year of %s digits' % (n if n < 5 else '5+'))
+            if n == 2 and 50 <= int(m.group(1)) <= 68:
+                fs.append('two-digit year 50..68')
+        if _re.search(r':\s*60\s', t):
+            fs.append('second 60')
+        z = t.split('(')[0].split()[-1] if t.split('(')[0].split() else ''
+        if z[:1] in '+-':
+            fs.append('numeric zone' + (' -0000' if z == '-0000' else '') + (' >= 24h' if z[1:3] >= '24' else ''))
+        elif len(z) == 1:
+            fs.append('military zone')
+        else:
+            fs.append('named zone')
+        if 'reject' in v:
+            fs.append('(judge: must be rejected)')
+        return tuple(fs)
     classes = {}
     for t, out, v in diffs:
-        key = (out.startswith('err'), v[:60])
-        classes.setdefault(key, []).append((t, out))
+        key = ('python rejects' if out.startswith('err') else 'python accepts', features(t, v))
+        classes.setdefault(key, []).append((t, out, v))
     for key, items in sorted(classes.items(), key=lambda kv: -len(kv[1])):
-        print('  %5d x python %s / judge %s   e.g. %r -> %s' % (len(items), 'rejects' if key[0] else 'accepts', key[1], items[0][0], items[0][1]))
+        print('  %5d x %s | %s | e.g. %r -> python %s, judge %s' % (len(items), key[0], ', '.join(key[1]), items[0][0], items[0][1], items[0][2][:60]))
+    known = ('white space around a time colon', 'second 60', '(judge: must be rejected)', 'year of 2 digits', 'year of 3 digits', 'year of 5+ digits')
+    residual = []
+    for t, out, v in diffs:
+        fs = features(t, v)
+        m = _re.search(r'[A-Za-z]{3}\s+(\d+)\s+\d\d\s*:', t)
+        small_year = bool(m) and int(m.group(1)) < 1000
+        if not (any(k in fs for k in known) or small_year):
+            residual.append((t, out, v))
+    print('known difference classes: white space around the time colons (CPython: no), second 60 (CPython: rejected), day of week not '
+          'checked by CPython, zone minutes >= 60 accepted by CPython, 2-digit years 50..68 (CPython: POSIX pivot 69), 3-digit years '
+          '(CPython: as written), years < 1000 / > 9999 (CPython: +2000 / rejected)')
+    print('residual differences outside these classes: %d' % len(residual))
+    for t, out, v in residual[:20]:
+        print('   %r -> python %s, judge %s' % (t, out, v[:70]))
     return diffs
 
 
